@@ -57,6 +57,9 @@ func findConds(p *Prog) []condInfoT {
 			lf := ""
 			if ls, ok := arg.(*ast.SelectorExpr); ok {
 				lf = ls.Sel.Name
+				if tv, ok := info.Types[ls.X]; ok {
+					lf = canonFieldName(tv.Type, lf) // lock paths are written with the pinned field names
+				}
 			}
 			res = append(res, condInfoT{condField: fv, lockClass: mutexClass(info, arg), lockField: lf, pos: p.pos(as)})
 			return true
